@@ -737,9 +737,65 @@ def _test_harness_update(ctx: Ctx):
         ctx.fail("harness-update-keeps-markers", "rust:generate_test_code:first-run", f"first run gives {out_a}", rel, fn.lineno)
 
 
+MODEL_OBJECT_ATTRS = {"type", "element", "key", "params", "result", "partialResult", "registrationOptions", "errorData"}
+
+
+def _model_objects_not_rendered(ctx: Ctx):
+    """The repr / str of a model node contains its random `id_` (attrs puts every field into the repr).  A model object --
+    a parameter annotated with a `model.` type, or one of its type-valued attributes -- may therefore only be rendered
+    into text inside the message of a `raise`; rendered into emitted lines it makes the output differ from run to run."""
+    idx = Index(ctx.src, dirs=("generator/plugins",))
+    n = 0
+    for rel, m in sorted(idx.modules.items()):
+        for fn in m.all_functions():
+            a = fn.args
+            typed = set()
+            for prm in a.posonlyargs + a.args + a.kwonlyargs:
+                ann = ast.unparse(prm.annotation) if prm.annotation is not None else ""
+                if "model." in ann or "LSP_TYPE_SPEC" in ann:
+                    if not any(x in ann for x in ("List[", "Sequence[", "Iterable[", "Dict[")):
+                        typed.add(prm.arg)
+            if not typed:
+                continue
+
+            def is_model_obj(e):
+                if isinstance(e, ast.Name):
+                    return e.id in typed
+                if isinstance(e, ast.Attribute) and e.attr in MODEL_OBJECT_ATTRS:
+                    return is_model_obj(e.value)
+                return False
+            for node in ast.walk(fn):
+                rendered = []
+                if isinstance(node, ast.FormattedValue):
+                    rendered = [node.value]
+                elif isinstance(node, ast.Call) and isinstance(node.func, ast.Name) and node.func.id in ("str", "repr") and node.args:
+                    rendered = [node.args[0]]
+                elif isinstance(node, ast.Call) and isinstance(node.func, ast.Attribute) and node.func.attr == "format" \
+                        and isinstance(node.func.value, (ast.Constant, ast.Name)):
+                    rendered = list(node.args) + [k.value for k in node.keywords]
+                elif isinstance(node, ast.BinOp) and isinstance(node.op, ast.Mod) and isinstance(node.left, ast.Constant) \
+                        and isinstance(node.left.value, str):
+                    rendered = list(node.right.elts) if isinstance(node.right, ast.Tuple) else [node.right]
+                for e in rendered:
+                    if not is_model_obj(e):
+                        continue
+                    n += 1
+                    q, in_raise = node, False
+                    while q is not None and q is not fn:
+                        if isinstance(q, ast.Raise):
+                            in_raise = True
+                        q = m.parents.get(q)
+                    ctx.check(in_raise, "uuid-confined", f"{rel}:{fn.name}:renders:{ast.unparse(e)[:40]}",
+                              f"{fn.name} renders the model object `{ast.unparse(e)}` into text outside an error message: its "
+                              "repr contains the random id_ of the node, so the emitted text differs from run to run",
+                              rel, node.lineno)
+    ctx.floor("renderings of model objects examined", n, 3)
+
+
 _run_c16 = run
 
 
 def run(ctx: Ctx):  # noqa: F811
     _run_c16(ctx)
     _test_harness_update(ctx)
+    _model_objects_not_rendered(ctx)
